@@ -21,6 +21,9 @@ type vShimControl struct {
 	failMode string // "error" | "commit-lost" (commit is rolled back and reports an error)
 	log      []string
 	armed    bool
+	// gate, when set, is called (outside the lock) before every operation: the
+	// C16 scheduler parks storage operations there
+	gate func(what string)
 }
 
 var vShimErr = errors.New("verif: injected storage fault")
@@ -40,6 +43,12 @@ func (c *vShimControl) disarm() (int, []string) {
 
 // step is called before every driver operation; returns true if it must fail.
 func (c *vShimControl) step(what string) bool {
+	c.Lock()
+	g := c.gate
+	c.Unlock()
+	if g != nil {
+		g(what)
+	}
 	c.Lock()
 	defer c.Unlock()
 	if !c.armed {
